@@ -1263,10 +1263,11 @@ def replay(ctx, path):
     for o, t in zip(obs, texts):
         o["lx"], o["lok"], o["lw"], o["nl"] = 0, False, [], 1
         o.setdefault("cls", "enc")
+        o.setdefault("alts", [])
         if t:
             ok, ws = next(it)
             o["lx"], o["lok"], o["lw"], o["nl"] = 1, ok, ws, 0
-    lines = [json.dumps({k: o[k] for k in ("n", "rs", "o", "ok", "w", "lx", "lok", "lw", "nl", "cls", "r")}, separators=(",", ":")) for o in obs]
+    lines = [json.dumps({k: o[k] for k in ("n", "rs", "o", "ok", "w", "lx", "lok", "lw", "nl", "cls", "r", "alts")}, separators=(",", ":")) for o in obs]
     rj = tlc_pointwise(ctx, lines, "replay", 1, rows_tla)
     for o, va, vaf, vl, vlf, cor in rj:
         print("  ", va, vaf, "corroborated" if cor else "uncorroborated", obs_text(o))
